@@ -11,11 +11,13 @@ from vp.ref.xdm import render
 
 PROPERTY = 'C01'
 LEVEL = 'exploration'
-RULE = ('one hypothesis example = one TreeSpec (<= 12 elements quick / 30 thorough; names a b c with optional namespaces, '
+RULE = ('one hypothesis example = one TreeSpec (<= 12 elements quick / 30 thorough; names a b c with optional namespaces - '
+        'among them urn:p and urn:pp, one URI a proper string prefix of the other - '
         'attributes, text/tail, comments, PIs, lxml document-level siblings) in one configuration (ElementTree|lxml x '
         'Element|ElementTree root x fragment None|True|False) plus a batch of 16 path ASTs (1-4 steps joined by / or //, all 13 '
         'axes, name/kind tests, 0-2 predicates: number, position() op n, last(), path, path = literal, count(path) op n, '
-        'not/and/or; (P)[n]/step and unions) each with a context item (root or any node of any kind). ref: the XPath 1.0 parser '
+        'not/and/or; (P)[n]/step, unions, and parenthesised single steps of every axis with 2-3 predicates (STEP)[p][p] - also as '
+        'predicate operands; namespace wildcards p:* r:* @p:* frequent on every axis) each with a context item (root or any node of any kind). ref: the XPath 1.0 parser '
         'result (token-level node list mapped to structural addresses) must equal the definitional evaluator on the RefTree as a '
         'LIST; versions: 2.0/3.0/3.1 must equal 1.0; lxml: 1.0 must equal libxml2 (root.xpath) on lxml documents; api: select/'
         'iter_select/Selector must equal the formatted token-level result. non-trivial = path with >= 2 steps whose reference '
@@ -39,9 +41,13 @@ ASSUMPTIONS = [
 ]
 FLOORS = {'ref:reverse-axis': (0.05, 'ref:path'), 'ref:positional': (0.10, 'ref:path'), 'ref:multi-result': (0.08, 'ref:path'),
           'ref:nonelement-context': (0.10, 'ref:path'), 'ref:verdict': (0.80, 'ref:path'),
-          'lxml:verdict': (0.60, 'lxml:path'), 'ref:nonempty': (0.20, 'ref:path')}
+          'lxml:verdict': (0.60, 'lxml:path'), 'ref:nonempty': (0.20, 'ref:path'),
+          'ref:paren-reverse-step-multi-pred': (0.03, 'ref:path'), 'lxml:paren-reverse-step-multi-pred': (0.03, 'lxml:path'),
+          'ref:ns-wildcard': (0.12, 'ref:path'), 'lxml:ns-wildcard': (0.12, 'lxml:path'),
+          'ref:ns-wildcard-hit-in-prefix-uri-doc': (0.015, 'ref:path'), 'ref:paren-multi-pred-nonempty': (0.02, 'ref:path')}
 
-NS = dict(gx.PATH_NAMESPACES)
+# r -> urn:pp: urn:p (prefix p) is a proper string prefix of it, so p:* / @p:* must not match names in urn:pp
+NS = dict(gx.PATH_NAMESPACES, r='urn:pp')
 VERSIONS = ('1.0', '2.0', '3.0', '3.1')
 
 _CFGS = ([('et', 'elem', None)] * 4 + [('lxml', 'elem', None)] * 4 + [('et', 'doc', None)] * 3 + [('lxml', 'doc', None)] * 4 +
@@ -53,7 +59,7 @@ _item = st.one_of(st.none(), st.integers(0, 400))
 
 def _cases(max_elems, n_paths, max_steps, cfg=_cfg):
     return st.fixed_dictionaries({
-        'spec': gx.tree_specs(max_elems=max_elems, max_depth=4, max_attrs=3, min_elems=5),
+        'spec': gx.tree_specs(max_elems=max_elems, max_depth=4, max_attrs=3, min_elems=5, prefix_uris=True),
         'cfg': cfg,
         'paths': st.lists(st.fixed_dictionaries({'ast': path_asts(max_steps), 'item': _item}),
                           min_size=n_paths, max_size=n_paths),
@@ -91,7 +97,7 @@ class Impl:
         self.root_obj = self.b.tree if cfg['rootkind'] == 'doc' else self.b.root
         self.top = get_node_tree(self.root_obj, namespaces=dict(NS), fragment=cfg['fragment'])
         self.ok = self._adopt()
-        self.ev = xdm.Evaluator(self.ref)
+        self.ev = xdm.Evaluator(self.ref, {'xml': gx.XML_NS, **NS})
 
     def conv(self, raddr):
         return raddr[1:] if self.dummy else raddr
@@ -410,6 +416,7 @@ def judge_ref(case, rec: Recorder | None = None) -> list[Disc]:
                 classes.append('ref:positional')
             if info.nonelem_ctx:
                 classes.append('ref:nonelement-context')
+            classes.extend('ref:' + c for c in shape_classes(ast, im.ref, exp))
             if exp:
                 classes.append('ref:nonempty')
             if len(exp) >= 2:
@@ -435,6 +442,50 @@ def _kind(exp, got):
     if isinstance(exp, tuple):
         return _tag(exp) + '-expected'
     return diff_kind(exp, got)
+
+
+def _paren_forms(ast):
+    """all ('fpath' of a single predicate-free-or-not step, [>= 2 predicates]) sub-expressions, also inside predicates"""
+    k = ast[0]
+    if k == 'union':
+        for x in ast[1]:
+            yield from _paren_forms(x)
+        return
+    preds = []
+    if k == 'path':
+        steps = ast[2]
+    else:
+        inner = ast[1]
+        if inner[0] == 'path' and inner[1] == 0 and len(inner[2]) == 1 and len(ast[2]) >= 2:
+            yield inner[2][0], ast[2]
+        yield from _paren_forms(inner)
+        preds, steps = list(ast[2]), ast[3]
+    for st_ in steps:
+        preds.extend(st_[3])
+    for p in preds:
+        for x in _pred_paths(p):
+            yield from _paren_forms(x)
+
+
+def shape_classes(ast, ref, exp):
+    """generator-health classes of the two input classes that adversarial changes once slipped through"""
+    out = []
+    forms = list(_paren_forms(ast))
+    if forms:
+        out.append('paren-step-multi-pred')
+        if any(st_[1] in xdm.REVERSE and any(xdm.Evaluator.is_positional(p) for p in preds[1:]) for st_, preds in forms):
+            out.append('paren-reverse-step-multi-pred')
+        if exp:
+            out.append('paren-multi-pred-nonempty')
+    wild = [st_ for st_ in xdm.iter_steps(ast) if st_[2][0] == 'nsany' and st_[2][1] in ('p', 'r')]
+    if wild:
+        out.append('ns-wildcard')
+        if exp and getattr(ref, '_has_p_and_pp', None) is None:
+            names = [n.name for n in ref.nodes if n.kind in ('element', 'attribute') and n.name.startswith('{')]
+            ref._has_p_and_pp = any(x.startswith('{urn:p}') for x in names) and any(x.startswith('{urn:pp}') for x in names)
+        if exp and ref._has_p_and_pp:
+            out.append('ns-wildcard-hit-in-prefix-uri-doc')
+    return out
 
 
 def _tag(g):
@@ -552,7 +603,7 @@ def judge_lxml(case, rec: Recorder | None = None) -> list[Disc]:
         text = render(ast)
         rctx = ctx_objs[pc['item'] % len(ctx_objs)] if pc['item'] is not None else ref.root
         nodes, info = im.ev.evaluate(ast, rctx)
-        classes = ['lxml:path']
+        classes = ['lxml:path'] + ['lxml:' + c for c in shape_classes(ast, ref, None)]
         if info.fp_from_attr_ns:
             classes.append('lxml:excluded-following/preceding-from-attr-or-ns')
         elif info.order_dep:
